@@ -133,6 +133,8 @@ def _history_probe(w, ctx):
     if w.name == 'linf3':
         return
     psi, H = w.psi, w.K
+    if not np.array_equal(psi.qd, H.qd):
+        return     # after zero_qnumbers() state and Hamiltonian no longer share physical quantum numbers (documented precondition)
     v0 = dense.mps_to_vector(psi.A)
     n0 = float(np.linalg.norm(v0))
     if n0 < 1e-12 or max(psi.bond_dims) > 32:
